@@ -220,6 +220,18 @@ struct qs_agent {
 				break;
 		}
 
+		// An offline agent does not report quiescent states itself. If no other agent is
+		// online either, nobody does: the requested grace period has trivially elapsed.
+		if(!_acked_qs_counter) {
+			lock_guard<M> lock(_dom->_mutex);
+
+			if(!_dom->_num_agents) {
+				auto current = _dom->_qs_counter.load(std::memory_order_relaxed);
+				if(target > current)
+					_dom->_qs_counter.store(target, std::memory_order_seq_cst);
+			}
+		}
+
 		FRG_ASSERT(!node->_target_qs_counter);
 		node->_target_qs_counter = target;
 		_pending.push_back(node);
